@@ -289,6 +289,26 @@ class ConvexPolyhedron(GeoBody):
             raise ValueError(
                 "Check for the number of vertices, faces and edges fails, the polyhedron may not be closed"
             )
+        if not self._closed_check():
+            raise ValueError(
+                "Every edge must belong to exactly two faces, the faces do not form a closed polyhedron"
+            )
+
+    def _closed_check(self):
+        """return True if every edge belongs to exactly two polygons.
+
+        Euler's formula alone cannot tell: a closed polyhedron plus an extra
+        polygon spanned by two of its edges and one diagonal also has
+        V - E + F = 2.
+        """
+        edge_count = dict()
+        for convex_polygon in self.convex_polygons:
+            for segment in convex_polygon.segments():
+                edge_count[segment] = edge_count.get(segment, 0) + 1
+        for count in edge_count.values():
+            if count != 2:
+                return False
+        return True
 
     def _euler_check(self):
         number_points = len(self.point_set)
